@@ -138,7 +138,7 @@ def worker(job):
 
 
 def design_level():
-    r = tlcrun.run_tlc("LexerMC", "LexerMC.cfg", workers=16, heap="6g", allow_violation=True)
+    r = tlcrun.run_tlc("LexerMC", "LexerMC.cfg", workers=16, heap="6g", allow_violation=True, heavy=True)
     neg = tlcrun.run_tlc("LexerMC", "LexerMCneg.cfg", workers=2, allow_violation=True)
     return {"states": r.distinct, "generated": r.generated, "violated": r.violated, "neg_violated": neg.violated}
 
